@@ -37,23 +37,7 @@ VALUE = "serde_json::Value"
 BYTE_SLICING = re.compile(r"^core::str::traits::<impl std::ops::Index<I> for str>::index$|^<std::string::String as std::ops::Index<I>>::index$|^core::str::<impl str>::(split_at|get|get_unchecked|as_bytes|bytes|char_indices|find|rfind|is_char_boundary|split_at_checked)$|^std::string::String::(as_bytes|truncate|split_off|drain|into_bytes)$")
 
 
-def guarded_sub(b, bi, rv):
-    """a - b on unsigned operands under a dominating test that a >= b (or a > b) of the same operands."""
-    a, c = strip_refs(b.trace(rv["a"])), strip_refs(b.trace(rv["b"]))
-    for sb in b.reachable():
-        tt = b.blocks[sb]["term"]
-        if tt["k"] != "SwitchInt" or tt.get("dty") != "bool":
-            continue
-        e = strip_refs(b.trace(tt["discr"]))
-        if e[0] != "binop" or e[1] not in ("Gt", "Ge", "Lt", "Le"):
-            continue
-        x, y = strip_refs(e[2]), strip_refs(e[3])
-        for truth in (True, False):
-            op = e[1] if truth else {"Gt": "Le", "Ge": "Lt", "Lt": "Ge", "Le": "Gt"}[e[1]]
-            implies = (op in ("Gt", "Ge") and (x, y) == (a, c)) or (op in ("Lt", "Le") and (y, x) == (a, c))
-            if implies and edge_dominates(b, sb, bool_edge(b, sb, truth), bi):
-                return True
-    return False
+from .panic import guarded_sub
 
 
 def to_string_role(facts):
@@ -236,6 +220,15 @@ def string_form_clauses(ctx, facts, roles, ts, cfg, K="K4"):
                 from_payload = x[0] == "field" and x[1][0] == "downcast" and x[1][2] == "Array" and strip_refs(x[1][1]) == ("arg", 1)
                 good = from_payload and len(clos) == 1 and [c for c in chain if c not in ("deref", "into_iter", "iter")] == ["collect", "map"]
                 elem_clos = facts.body(clos[0]) if good else None
+            if not good:
+                # not join(map(..)): a loop that appends to one String?
+                from . import joinloop as JL
+                jl = JL.JoinLoop(ts, blocks, ts.key)
+                src_ok = jl.recognised and str(jl.next_path).startswith(("<std::iter::Enumerate<I> as", "<std::slice::Iter<")) and expr_mentions(jl.iter_expr, lambda y: y[0] == "downcast" and y[2] == "Array" and strip_refs(y[1]) == ("arg", 1)) \
+                    and not expr_mentions(jl.iter_expr, lambda y: y[0] == "call" and y[1] and re.search(r"(Iterator::|Iterator>::)(rev|skip|take|filter|step_by|chain)$", y[1]["path"]) is not None)
+                if src_ok and r[0] == "call" and r[1] and re.search(r"String::(new|with_capacity)$", r[1]["path"]):
+                    JL.judge(ctx, jl, K, cfg, ts.where(), ts.key)
+                    continue
             ctx.check(bool(good) and sep == ",", K + ".array-join", key, "the string form of an array is %s (separator %r)" % (show_expr(r)[:80], sep), where=ts.where(), fn=ts.key, nontrivial=True, sample={"separator": sep})
             if elem_clos is not None:
                 for ev in facts.variants(VALUE):
